@@ -234,3 +234,23 @@ def bounded_results(pid, tier, seed, reg):
     for fn in BOUNDED_HOOKS.get(pid, []):
         out.append(fn(tier, seed))
     return out
+
+
+def known_open(pid, fid):
+    """The entry of /verif/known_findings.json with this id, if it is listed as an open finding of the property."""
+    for kf in load_known_findings():
+        if kf.get("id") == fid and kf.get("property") == pid and kf.get("status", "open") == "open":
+            return kf
+    return None
+
+
+def report_bounded_finding(out, pid, fid, text, detail):
+    """A defect seen by a bounded stand-in: KNOWN-FINDING if the committed file lists it, else a VIOLATION with a replay file."""
+    if known_open(pid, fid) is not None:
+        out["known_lines"].append("KNOWN-FINDING: property=%s %s %s" % (pid, fid, text))
+        return
+    d = os.path.join(ROOT, "replays", pid)
+    os.makedirs(d, exist_ok=True)
+    path = os.path.join(d, "bounded_%s.json" % fid)
+    json.dump(dict(property=pid, obligation="bounded:%s" % fid, what=text, detail=detail), open(path, "w"), indent=1, default=str)
+    out["violations"].append("VIOLATION property=%s replay=%s" % (pid, path))
